@@ -1,6 +1,7 @@
 import GmqttVerif.Proofs.LifecycleMore
 import GmqttVerif.Proofs.LifecycleSys
-import GmqttVerif.Generated.Facts
+import GmqttVerif.Generated.Locks
+import GmqttVerif.Generated.Serve
 /-
   C15 — Concurrent use is race-free, deadlock-free and Stop terminates cleanly.            (PARTIAL claim)
 
